@@ -33,9 +33,9 @@ def scopes(tier):
     # matchrule semantics (what "a matching exception" means): all single rules and pairs of rules over a
     # small alphabet, inverted or not, data shorter / longer than the values
     if q:
-        out.append(("static", {"Parts": '{"size", "match", "cri", "xlist", "rlist", "skey"}', "MSyms": "{1, 2, 3}", "MCi": "{FALSE, TRUE}"}))
+        out.append(("static", {"Parts": '{"size", "match", "cri", "xlist", "rlist", "skey", "offs"}', "MSyms": "{1, 2, 3}", "MCi": "{FALSE, TRUE}"}))
     else:
-        out.append(("static", {"Parts": '{"size", "match", "cri", "xlist", "rlist", "skey"}', "MSyms": "{1, 2, 3}", "MCi": "{FALSE, TRUE}", "MPairLens": "{1, 2, 3}"}))
+        out.append(("static", {"Parts": '{"size", "match", "cri", "xlist", "rlist", "skey", "offs"}', "MSyms": "{1, 2, 3}", "MCi": "{FALSE, TRUE}", "MPairLens": "{1, 2, 3}"}))
     # a rule gives source 2 its own threshold, below / equal / above the global one; long enough to flood a
     # banned source beyond unban * its threshold and then keep it silent for unban + 1 rounds
     rthr = dict(sp, NSrc="2", Kinds='{"n"}', Dts="{1}", Modes='{"rules"}', Us="{4, 1}")
@@ -112,6 +112,7 @@ def strict_runs(ctx):
         ("r8", "Admission_mutant.cfg", "mutant/exception-subject-sticks", {"Parts": '{"xlist"}', "M_SubjectPerException": "FALSE"}),
         ("r9", "Admission_mutant.cfg", "mutant/last-matching-rule-wins", {"Parts": '{"rlist"}', "M_FirstRuleWins": "FALSE"}),
         ("r10", "Admission_mutant.cfg", "mutant/empty-source-key-shared", {"Parts": '{"skey"}', "M_SourceFallsBackToInputId": "FALSE"}),
+        ("r11", "Admission_mutant.cfg", "mutant/unknown-stream-is-not_set", {"Parts": '{"offs"}', "M_PrecheckOnlyForKnownStream": "FALSE"}),
     ]
     res = {}
 
@@ -131,7 +132,7 @@ def strict_runs(ctx):
         raise vlib.Infra("strict invariants fail with both deviation switches off: %s" % res["r3"].violated)
     want = {"r4": ("UnbanWithin",), "r5": ("MatchAgrees",), "r6": ("DataUnchanged",),
             "r7": ("CriAdmitted", "CriVerdictIgnoresAntispam"), "r8": ("ExceptionListExempts",), "r9": ("RuleListGoverns",),
-            "r10": ("SourceKeyAgrees", "NoSharedCounter")}
+            "r10": ("SourceKeyAgrees", "NoSharedCounter"), "r11": ("RefusedOnlyForStatedReasons",)}
     names = {j[0]: j[2] for j in jobs}
     for k, inv in want.items():
         if res[k].violated not in inv:
@@ -146,7 +147,7 @@ def run(ctx):
     cfg = "Admission_quick.cfg" if ctx.tier == "quick" else "Admission_thorough.cfg"
     size_path = os.path.join(ctx.scratch, "c20_pipeline_cases.ndjson")
     spam_path = os.path.join(ctx.scratch, "c20_antispam_cases.ndjson")
-    n_size = n_spam = n_pipe_hist = n_match = n_cri = n_xl = n_rl = n_rl_pipe = n_sk = 0
+    n_size = n_spam = n_pipe_hist = n_match = n_cri = n_xl = n_rl = n_rl_pipe = n_sk = n_ofs = 0
     per_scope = {}
     # share of histories that also go through Pipeline.In (unban iterations are the constant 4 there)
     pipe_budget = 24000 if ctx.tier == "quick" else 100000
@@ -192,6 +193,9 @@ def run(ctx):
                 elif part == "skey":
                     fsz.write(line + "\n")
                     n_sk += 1
+                elif part == "offs":
+                    fsz.write(line + "\n")
+                    n_ofs += 1
                 else:
                     fsp.write(line + "\n")
                     n_spam += 1
@@ -232,8 +236,8 @@ def run(ctx):
                 c = r.get("case") or {}
                 if r.get("harness") == "antispam-rlist":
                     fsp.write(json.dumps(dict(r.get("rlist_case") or {}, part="rlist")) + "\n")
-                elif r.get("harness") in ("pipeline-rlist", "pipeline-skey"):
-                    fsz.write(json.dumps(dict(r.get("raw_case") or {}, part=r["harness"].split("-")[1])) + "\n")
+                elif r.get("harness") in ("pipeline-rlist", "pipeline-skey", "pipeline-offsets"):
+                    fsz.write(json.dumps(dict(r.get("raw_case") or {}, part={"rlist": "rlist", "skey": "skey", "offsets": "offs"}[r["harness"].split("-")[1]])) + "\n")
                 elif r.get("harness") == "antispam-xlist":
                     fsp.write(json.dumps(dict(r.get("xlist_case") or {}, part="xlist")) + "\n")
                 elif r.get("harness") in ("pipeline-cri", "pipeline-xlist"):
@@ -270,6 +274,8 @@ def run(ctx):
         if ra["rlist_cases"] != n_rl or rp["misc"]["rlist_in_calls"] != 4 * n_rl_pipe:
             raise vlib.Infra("rule-list cases executed: antispam %d of %d, pipeline In calls %d of %d" %
                              (ra["rlist_cases"], n_rl, rp["misc"]["rlist_in_calls"], 4 * n_rl_pipe))
+        if rp["misc"]["offsets_in_calls"] != n_ofs:
+            raise vlib.Infra("pipeline harness executed %d of %d offsets cases" % (rp["misc"]["offsets_in_calls"], n_ofs))
         if rp["misc"]["skey_in_calls"] < n_sk:
             raise vlib.Infra("pipeline harness made %d In calls for %d source-key cases" % (rp["misc"]["skey_in_calls"], n_sk))
         if rp["misc"]["cri_executed"] < 2 * n_cri:
@@ -318,7 +324,7 @@ def run(ctx):
         stale.append("D_ResidualAfterUnban is on in the specification but the real code no longer bans below threshold after an unban")
     if not ctx.replay and strict["exceptions_ignored_on_violates"] and not any(k.startswith("exception_dropped/false/true/exception") for k in counts):
         stale.append("D_ExceptionsIgnoredWithRules is on in the specification but the real code no longer drops exception matches when rules exist")
-    drift = ra.get("drift", 0) + rp["hist"].get("drift", 0) + ra.get("dump_drift", 0) + rp["misc"].get("xlist_drift", 0) + rp["misc"].get("rlist_drift", 0) + rp["misc"].get("skey_drift", 0)
+    drift = ra.get("drift", 0) + rp["hist"].get("drift", 0) + ra.get("dump_drift", 0) + rp["misc"].get("xlist_drift", 0) + rp["misc"].get("rlist_drift", 0) + rp["misc"].get("skey_drift", 0) + rp["misc"].get("offsets_drift", 0)
     ctx.drift = drift + len(stale)
     for s in stale:
         vlib.log("MODEL-DRIFT:", s)
@@ -329,7 +335,7 @@ def run(ctx):
 
     # ---- evidence
     ctx.evaluations = ra["steps"] + rp["hist"]["steps"] + rp["size"]["executed"]
-    ctx.traces_validated = ra["rlist_cases"] + n_rl_pipe + n_sk + ra["xlist_cases"] + rp["misc"]["xlist_executed"] + rp["misc"]["cri_executed"] + ra["executed"] + ra["match_cases"] + rp["hist"]["executed"] + rp["sched"]["executed"] + rp["size"]["executed"]
+    ctx.traces_validated = n_ofs + ra["rlist_cases"] + n_rl_pipe + n_sk + ra["xlist_cases"] + rp["misc"]["xlist_executed"] + rp["misc"]["cri_executed"] + ra["executed"] + ra["match_cases"] + rp["hist"]["executed"] + rp["sched"]["executed"] + rp["size"]["executed"]
     ctx.nontrivial = ra["cases_with_ban"] + rp["size"]["cut_delivered"] + rp["size"]["kept_at_limit"]
     ctx.exhaustive = True
     ctx.rule = ("size: case = (body length 0..M+2, trailing newline, max_event_size 0..8, cut_off, cut-off field, decodable, "
@@ -344,11 +350,13 @@ def run(ctx):
                 "delivered with log/time/stream unaltered). exception lists: %d lists of 1..3 exceptions (record / source-name subject, matching "
                 "bits) through the real IsSpam and through Pipeline.In. rule lists: %d (global threshold, 1..3 rules with matching bit and threshold -1/0/1..3) "
                 "cases, 4 arrivals each on the real IsSpam, %d of them also through Pipeline.In. source key: %d interleavings of <= 4 records of two "
-                "inputs with / without the meta key x source_name_meta_field unset / set on a running pipeline. Non-trivial = histories in which the real antispammer banned a source + size cases that were cut and "
+                "inputs with / without the meta key x source_name_meta_field unset / set on a running pipeline. offsets: %d cases (saved offsets of not_set / "
+                "the record's stream / another stream x raw, json, json with stream field, cri x antispam off / on) through Pipeline.In with "
+                "NewOffsets(current, SliceFromMap(saved)) and a PassEvent like the file input's. Non-trivial = histories in which the real antispammer banned a source + size cases that were cut and "
                 "delivered or sat exactly at the limit." %
                 (n_size, rp["size"]["executed"], rp["size"]["delivered"], rp["size"]["cut_delivered"], rp["size"]["kept_at_limit"],
                  n_spam, json.dumps(per_scope), ra["steps"], ra["bans"], ra["unbans"], ra["determined"], n_pipe_hist, n_sched, rp["sched"]["banned_then_admitted"], n_match,
-                 n_cri, rp["misc"]["cri_executed"], n_xl, n_rl, n_rl_pipe, n_sk))
+                 n_cri, rp["misc"]["cri_executed"], n_xl, n_rl, n_rl_pipe, n_sk, n_ofs))
     for s in samples[:4]:
         ctx.sample(s)
     ctx.extra["c20"] = {"scopes": per_scope, "strict_runs": strict, "antispam_harness": {k: ra[k] for k in ra if k not in ("violations", "drift_samples")},
